@@ -6,6 +6,7 @@ import (
 	"testing"
 	"time"
 
+	"github.com/agglayer/aggkit/agglayer"
 	agglayertypes "github.com/agglayer/aggkit/agglayer/types"
 	"github.com/ethereum/go-ethereum/common"
 	"pgregory.net/rapid"
@@ -31,6 +32,7 @@ type walkCfg struct {
 	reduced bool // enumerator alphabet
 	steps   int
 	weights []int // action alphabet with repetitions = weights (nil: default)
+	viaGRPC bool  // the node talks to the model through aggkit's real gRPC client over a unix socket
 	beyond  bool  // some claims are made against L1 info leaves above the finalized one (outside C09's precondition)
 }
 
@@ -44,6 +46,7 @@ type walkRes struct {
 	submitted  int
 	cleanup    func()
 	storageDir string
+	grpc       *grpcAgglayer
 }
 
 func (r *walkRes) key() string { return strings.Join(r.trace, " ") }
@@ -186,7 +189,19 @@ func runWalk(ch choose.Chooser, cfg walkCfg) (*walkRes, error) {
 	m := newMAgglayer(w)
 	dbPath, clean := tmpDB("aggsender")
 	r := &walkRes{w: w, m: m, cleanup: func() { w.close(); clean() }, storageDir: dbPath}
-	node, err := newASNode(w, m, dbPath, cfg.node)
+	var client agglayer.AgglayerClientInterface = m
+	if cfg.viaGRPC {
+		g, err := newGRPCAgglayer(m)
+		if err != nil {
+			r.cleanup()
+			return nil, err
+		}
+		r.grpc = g
+		inner := r.cleanup
+		r.cleanup = func() { g.stop(); inner() }
+		client = g
+	}
+	node, err := newASNode(w, client, dbPath, cfg.node)
 	if err != nil {
 		r.cleanup()
 		return nil, err
